@@ -173,6 +173,14 @@ func (c *Ctx) Cases(stream string, n int, fn func(i int, rng *rand.Rand)) {
 		} else if i%c.NShards != c.Shard {
 			continue
 		}
+		c.mu.Lock()
+		tooMany := c.viols >= 40
+		c.mu.Unlock()
+		if tooMany {
+			// enough witnesses: do not spend the budget re-detecting the same failure
+			c.Count("cases_skipped_after_40_violations", 1)
+			continue
+		}
 		c.Mark(i, stream)
 		c.mu.Lock()
 		c.evals++
